@@ -278,12 +278,17 @@ class PythonASTOptimizer(ast.NodeTransformer):
         node.finalbody = _filter_dead_code(node.finalbody)
         new_node = self.generic_visit(node)
         assert isinstance(new_node, ast.Try)
+        finalbody = _filter_dead_code(new_node.finalbody)
+        if not new_node.handlers and not finalbody:
+            # Python requires a handler or a finally clause; every statement of
+            # this finally clause was a no-op which has been eliminated
+            finalbody = [ast.Pass()]
         return ast.copy_location(
             ast.Try(
                 body=_filter_dead_code(new_node.body),
                 handlers=new_node.handlers,
                 orelse=_filter_dead_code(new_node.orelse),
-                finalbody=_filter_dead_code(new_node.finalbody),
+                finalbody=finalbody,
             ),
             new_node,
         )
